@@ -6,7 +6,9 @@ per-peer capacity, and together with the insertion of the table entry; who may
 mutate the fetch table; in Service::fetched every effect of a worker result is
 dominated by a branch establishing that the result comes from the peer the
 in-flight fetch was started with (an assertion is not a guard); the fetch queue
-push is bounded; the capacity predicate's table.
+push is bounded; the capacity predicate's table. 
+Service::disconnected drops a peer's fetch-table entries only on paths that also
+tear the session down.
 Not decided: the interleaving invariants themselves (Service.fetching versus
 Session.fetching consistency across events)."""
 import re
